@@ -8,8 +8,9 @@ import shutil
 from . import common
 from . import wholetool as wt
 
-SPELLINGS_ON = ["//nolint:nilaway", "//nolint:all", "//nolint", "// nolint:nilaway // reason", "//nolint:errcheck,nilaway"]
-SPELLINGS_OFF = ["//nolint:errcheck", "// not a nolint comment"]
+SPELLINGS_ON = ["//nolint:nilaway", "//nolint:all", "//nolint", "// nolint:nilaway // reason", "//nolint:errcheck,nilaway",
+                "//nolint:errcheck, nilaway", "//nolint: nilaway , errcheck", "//nolint TODO: remove", "//nolint:nilaway: a reason"]
+SPELLINGS_OFF = ["//nolint:errcheck", "// not a nolint comment", "//nolintlint", "// nolinting this would be wrong", "//nolint:errcheck, gosec"]
 
 
 def gen_module(rng, d):
@@ -42,9 +43,19 @@ def gen_module(rng, d):
             L.append("\treturn p.V%s" % cm)
             exp.append(("a/a.go", len(L), sup))
         elif kind < 0.8:
-            # comment on its own line above the statement
+            # comment on its own line above the statement -- alone, or as one line of a comment group (the directive first
+            # and the justification after it, or the other way round), directly after the previous statement
             sup = rng.random() < 0.6
-            L.append("\t" + (rng.choice(SPELLINGS_ON) if sup else rng.choice(SPELLINGS_OFF)))
+            cm = "\t" + (rng.choice(SPELLINGS_ON) if sup else rng.choice(SPELLINGS_OFF))
+            shape = rng.randrange(4)
+            if shape == 1:
+                L += [cm, "\t// the value cannot be nil here: see src"]
+            elif shape == 2:
+                L += ["\t// the value cannot be nil here: see src", cm]
+            elif shape == 3:
+                L += [cm, "\t// first line of the justification", "\t// second line of the justification"]
+            else:
+                L.append(cm)
             L.append("\treturn p.V")
             exp.append(("a/a.go", len(L), sup))
         else:
